@@ -16,7 +16,9 @@ PROPS = {
              "gauss_seidel, ilu0} on matrices from vf::gen_graph (n up to 200) with M-matrix / convection-diffusion / diagonally dominant mixed-sign value families (real and integer valued, "
              "optionally structurally non-symmetric, optionally with unsorted input rows, block_size 2 and 0..2 near-null-space vectors for the aggregation family), random coarsening parameters "
              "(eps_strong, over_interp, relax, spectral radius estimate, truncation), coarse_enough, max_levels, direct_coarse, npre/npost/ncycle/pre_cycles, followed by up to 8 commands from "
-             "{apply(v), rebuild(perturbed values), rebuild(2^k A), rebuild(original), rebuild(other pattern, same n)}; run under 1 OpenMP thread (spgemm_saad) and 17 threads (spgemm_rmerge). "
+             "{apply(v), rebuild(perturbed values), rebuild(2^k A), rebuild(original), rebuild(other pattern, same n)} with a freshly allocated matrix; half of the histories are zero-copy "
+             "(hierarchy built from a shared_ptr<crs>, rows sorted) and additionally draw {change the values of the installed system matrix in place (damped off-diagonals / 2^k / original values) and "
+             "call rebuild() with that same shared_ptr}; run under 1 OpenMP thread (spgemm_saad) and 17 threads (spgemm_rmerge). "
              "Value types with a non-trivial entrywise adjoint (c03_galerkin_complex / c03_galerkin_block): std::complex<double> (Hermitian positive definite, Gaussian-integer Hermitian and general "
              "complex diagonally dominant matrices; aggregation, smoothed_aggregation, smoothed_aggr_emin) and static_matrix<double,2,2> blocks (block-symmetric and general block matrices with "
              "non-symmetric blocks; aggregation, smoothed_aggregation) x {spai0, damped_jacobi, gauss_seidel}, n up to 120, up to 5 commands, same oracles with R == P^H / blockwise transpose and a "
